@@ -86,8 +86,46 @@ def sweep(pid, chk=None, jobs=None):
   if chk is not None and bad:
     raise model.AnalysisError(f'{pid}: the rules fail their own sensitivity sweep: {bad[:4]}')
   if chk is not None:
+    seeded(pid, chk)
     equivalents(pid, chk)
   return results
+
+
+def run_seeded(pid, sid):
+  """Applies seeded/<sid>/patch.diff to a scratch copy of the package and runs the quick rules on it (must fire)."""
+  patch = os.path.join(VERIF, 'seeded', sid, 'patch.diff')
+  root = _scratch_root()
+  try:
+    shutil.copytree(os.path.join(model.REPO, model.PKG), os.path.join(root, model.PKG), ignore=shutil.ignore_patterns('__pycache__', '*.pyc', 'data'))
+    ap = subprocess.run(['patch', '-p1', '-s', '--no-backup-if-mismatch', '-i', patch], cwd=root, capture_output=True, text=True)
+    if ap.returncode != 0:
+      return sid, 'skipped', 'patch does not apply to the current tree'
+    env = dict(os.environ, VERIF_NO_EVIDENCE='1')
+    p = subprocess.run([sys.executable, '-B', '-m', 'sa.cli', pid, '--repo', root, '--tier', 'quick'], cwd=VERIF, env=env, capture_output=True, text=True, timeout=900)
+    first = next((l for l in (p.stdout + p.stderr).splitlines() if ': [' in l or l.startswith('ANALYSIS')), '')
+    return sid, {0: 'silent', 1: 'fired', 2: 'analysis-error'}.get(p.returncode, str(p.returncode)), first[:300]
+  finally:
+    shutil.rmtree(root, ignore_errors=True)
+
+
+def seeded(pid, chk):
+  """Regression over the independently written breaking changes kept under seeded/: each one for this property must still fire."""
+  d = os.path.join(VERIF, 'seeded')
+  ids = sorted(x for x in (os.listdir(d) if os.path.isdir(d) else []) if x.startswith(pid + '_') and os.path.isfile(os.path.join(d, x, 'patch.diff')))
+  if not ids:
+    return
+  with concurrent.futures.ThreadPoolExecutor(max_workers=min(8, os.cpu_count() or 4)) as ex:
+    res = list(ex.map(lambda s_: run_seeded(pid, s_), ids))
+  bad = []
+  for sid, status, info in res:
+    if status == 'fired':
+      chk.ok(f'{pid}.seeded-changes', f'seeded change {sid}', f'fired: {info}')
+    elif status == 'skipped':
+      chk.note(f'seeded change {sid}: {info}')
+    else:
+      bad.append((sid, status, info))
+  if bad:
+    raise model.AnalysisError(f'{pid}: seeded breaking changes are no longer detected: {bad[:3]}')
 
 
 def run_equivalent(pid, seed):
